@@ -27,7 +27,7 @@ _AAD_W = ["Ta_achain_poll_write", "Ta_achain_poll_flush", "Ta_achain_poll_shutdo
 _ASYNC = ["Tk_arf_pre", "Tk_arf_post", "Tk_aco_pre", "Tk_aco_post"]
 GEN_SCOPE = {
     "C01": _API, "C03": _API, "C04": _API + _DF,
-    "C02": ["Fb_read_frame"] + _DF, "C05": _DF, "C06": ["Fb_read_frame"] + _DF,
+    "C02": ["Fb_read_frame", "Transfer"] + _DF, "C05": _DF, "C06": ["Fb_read_frame"] + _DF,
     "C07": ["Fb_read_frame", "Fb_io_read", "Ad_chain_read", "Ad_take_read"] + _DF + _ASYNC + _AAD_R + ["Tk_afb_poll_read"],
     "C08": ["Ad_chain_read"], "C09": ["Ad_take_read"],
     "C10": ["Fb_deframe", "Fb_mem_"] + _DF, "C11": ["Fb_try_parse"] + _READS,
@@ -35,7 +35,7 @@ GEN_SCOPE = {
     "C13": ["Ad_chain_write", "Ad_chain_flush", "Ad_take_write", "Ad_take_flush"] + _AAD_W,
     "C16": _AAD_R, "C17": _AFB,
     "C14": _ASYNC, "C15": _ASYNC,
-    "C19": ["Es_escape_ascii", "Es_fb_escape_ascii"],
+    "C19": ["Es_escape_ascii", "Es_fb_escape_ascii", "Es_debug_fmt"],
 }
 for _pid, _scope in GEN_SCOPE.items():
     REGISTRY[_pid].gen_scope = _scope
